@@ -2,6 +2,7 @@ package receiver
 
 import (
 	"context"
+	"github.com/PowerDNS/lightningstream/utils/verifhook"
 	"time"
 
 	"github.com/PowerDNS/lightningstream/config"
@@ -42,6 +43,7 @@ func (d *Downloader) NotifyNewSnapshot() {
 // becomes available that can be loaded.
 func (d *Downloader) Run(ctx context.Context) error {
 	for {
+		verifhook.Yield("dl.wait", d.instance)
 		select {
 		case <-ctx.Done():
 			return context.Canceled
@@ -53,6 +55,7 @@ func (d *Downloader) Run(ctx context.Context) error {
 		// If a newer snapshot shows up, switch to that one.
 		// If a snapshot disappears, this will be reflected in the last seen.
 		for {
+			verifhook.Yield("dl.lastseen.lock", d.instance)
 			// Get last one seen by Receiver
 			d.r.mu.Lock()
 			ni, exists := d.r.lastSeenByInstance[d.instance]
@@ -85,6 +88,7 @@ func (d *Downloader) Run(ctx context.Context) error {
 }
 
 func (d *Downloader) LoadOnce(ctx context.Context, ni snapshot.NameInfo) error {
+	verifhook.Yield("dl.loadonce", d.instance)
 	// Limit number of downloaded compressed snapshots in memory
 	downloadToken := d.r.downloadSnapshotLimit.Acquire()
 	defer downloadToken.Release()
@@ -129,6 +133,7 @@ func (d *Downloader) LoadOnce(ctx context.Context, ni snapshot.NameInfo) error {
 	_ = data   // silence linter
 	downloadToken.Release()
 
+	verifhook.Yield("dl.publish.lock", d.instance)
 	// Make snapshot available to the syncer, replacing any previous one
 	// that has not been loaded yet.
 	d.r.mu.Lock()
@@ -157,6 +162,7 @@ func (d *Downloader) LoadOnce(ctx context.Context, ni snapshot.NameInfo) error {
 	if hasOverwrittenSnap {
 		d.l.WithField("overwritten_snapshot", overwrittenSnap.NameInfo.FullName).
 			Debug("Closing overwritten snapshot")
+		verifhook.Yield("dl.closeOverwritten", d.instance)
 		overwrittenSnap.Close()
 	}
 
